@@ -126,3 +126,21 @@ Definition disc_rle_expand (c : disc_rle_case) : disc_case :=
 
 Definition disc_rle_check (c : disc_rle_case) : bool := call_check (CDisc (disc_rle_expand c)).
 Definition disc_rle_expected (c : disc_rle_case) : list oq := disc_expected (disc_rle_expand c).
+
+(* ---------------------------------------------------------------- very long lanes (4095 .. 12289 entries)
+   Each lane of the reduced axis is given by its own runs; the expected cell is [disc_lane] of the expanded lane (the
+   lane-level specification of Props/C15.v [discriminants_spec] / [nanmax_spec]), with no index arithmetic in nat. *)
+Record disc_lanes_case := {
+  dl_op : disc_op;
+  dl_lanes : list (list (fval * nat));
+  dl_obs_shape : list nat;
+  dl_obs : list fval
+}.
+
+Definition disc_lanes_expected (c : disc_lanes_case) : list oq :=
+  map (fun l => disc_lane (dl_op c) (map fval_q (expand l))) (dl_lanes c).
+
+Definition disc_lanes_check (c : disc_lanes_case) : bool :=
+  natlist_eqb [length (dl_lanes c)] (dl_obs_shape c)
+  && forallb (fun l => forallb (fun p => negb (is_inf (fst p))) l) (dl_lanes c)
+  && forallb2 (fun v m => fval_matches 0 0 v m) (dl_obs c) (disc_lanes_expected c).
